@@ -22,13 +22,22 @@ Definition nonce_bip340 (msg key32 pk32 : bytes) (aux : option bytes) : bytes :=
   let mask := tagged_hash tag_bip340_aux (match aux with Some a => a | None => zeros 32 end) in
   tagged_hash tag_bip340_nonce (xor_bytes key32 mask ++ pk32 ++ msg).
 
+(* the exported secp256k1_nonce_function_bip340 called directly: algo NULL -> 0; otherwise the tagged hash with tag algo *)
+Definition nonce_function_bip340_direct (msg key32 pk32 : bytes) (algo aux : option bytes) : list arg :=
+  match algo with
+  | None => [AInt 0]
+  | Some tag =>
+    let mask := tagged_hash tag_bip340_aux (match aux with Some a => a | None => zeros 32 end) in
+    [AInt 1; ABytes (tagged_hash tag (xor_bytes key32 mask ++ pk32 ++ msg))]
+  end.
+
 Definition challenge (r32 msg pk32 : bytes) : Z :=
   fst (sc_of_b32 P (tagged_hash tag_bip340_challenge (r32 ++ pk32 ++ msg))).
 
-(* nonce kinds: 0 = default (NULL or secp256k1_nonce_function_bip340), 2 = test function returning
+(* nonce kinds: 0 = default (noncefp NULL), 1 = secp256k1_nonce_function_bip340 named explicitly (documented to be the same), 2 = test function returning
    ndata's 32 bytes as the nonce, 3 = test function returning 0 (failure) *)
 Definition schnorr_nonce (kind : Z) (msg key32 pk32 : bytes) (ndata : option bytes) : option bytes :=
-  if kind =? 0 then Some (nonce_bip340 msg key32 pk32 ndata)
+  if (kind =? 0) || (kind =? 1) then Some (nonce_bip340 msg key32 pk32 ndata)
   else if kind =? 2 then Some (match ndata with Some d => firstn 32 d | None => zeros 32 end)
   else None.
 
